@@ -152,6 +152,16 @@ EXTRA_PROGRAMS: Dict[str, Dict[str, Any]] = {
                                                  "message_defs": {"MS": {"id": 4109, "fields": {"s": "ST", "d": "double[MIX]"}}}},
                                    "k.yaml": {"constants": {"CHANS": 4, "CHANS_PER_BANK": 8, "N": 3, "N2": 7, "N10": 11, "W": 2, "W_H": 5}}},
     "string-constants": {"root.yaml": {"string_constants": {"GREETING": "hello world", "PATHLIKE": "a/b_c-d.e"}, "message_defs": {"MS": {"id": 4101, "fields": {"a": "int32"}}}}},
+    # punctuation inside string constants: apostrophes, percent signs, brackets, separators
+    "string-constants-with-punctuation": {"root.yaml": {"string_constants": {"READY_TEXT": "it's ready", "BOTH": "don't say 'no'", "FMT": "%d of %s (100%)", "SEP": "a, b; c & d | e",
+                                                                             "URLISH": "tcp://host:7111/?x=1#frag", "BRACKETS": "[a]{b}<c>"},
+                                                        "message_defs": {"MS": {"id": 4123, "fields": {"a": "int32"}}}}},
+    # the project's root file lives in its own directory and imports shared definitions from a sibling directory
+    "import-from-a-sibling-directory": {"root.yaml": {"imports": ["../shared/base.yaml", "local.yaml"], "message_defs": {"MS": {"id": 4124, "fields": {"p": "SH_POSE", "q": "SH_DEEP", "l": "LOC"}}}},
+                                        "../shared/base.yaml": {"imports": ["more/deep.yaml"], "struct_defs": {"SH_POSE": {"fields": {"q": "double[4]"}}},
+                                                                "message_defs": {"SH_CMD": {"id": 4125, "fields": {"p": "SH_POSE"}}}},
+                                        "../shared/more/deep.yaml": {"struct_defs": {"SH_DEEP": {"fields": {"v": "int32[2]"}}}},
+                                        "local.yaml": {"imports": ["../shared/base.yaml"], "struct_defs": {"LOC": {"fields": {"p": "SH_POSE"}}}}},
     "reserved-ids": {"root.yaml": {"message_defs": {"_RESERVED_": {"id": [4200, "4202 - 4204", "4210 to 4211"]}, "MS": {"id": 4201, "fields": {"a": "int8"}}}}},
     "reserved-in-two-files": {"root.yaml": {"imports": ["lib.yaml"], "message_defs": {"_RESERVED_": {"id": [4300, "4302 - 4303", "4330 - 4331", 4340, "4350 to 4352", "4360 - 4360"]},
                                                                                   "MS": {"id": 4301, "fields": {"a": "int8"}}}},
